@@ -75,6 +75,10 @@ func configs(tier string) []Cfg {
 					out = append(out, Cfg{Len: l, Proto: v.p, Method: v.m, Port: "open", Silent: s, First: 1, Concur: 1})
 				}
 				out = append(out, Cfg{Len: l, Proto: v.p, Method: v.m, Port: "open", First: 2, Concur: 1})
+				if l >= 2 {
+					// both together: a first TTL above 1 and a silent router inside the probed range (its entry keeps its TTL)
+					out = append(out, Cfg{Len: l, Proto: v.p, Method: v.m, Port: "open", Silent: l, First: 2, Concur: 1})
+				}
 				// the last TTL is exactly the destination's distance: the probe with TTL = max TTL is the one that counts
 				out = append(out, Cfg{Len: l, Proto: v.p, Method: v.m, Port: "open", First: 1, Concur: 1, Max: l + 1})
 				if v.p == "tcp" && v.m != "sack" && l == 2 {
